@@ -41,7 +41,7 @@ Lemma normalize_box {T} (O : ops T) : field_laws O -> order_laws O ->
   (step O w (ONormalize i true) = Some w' ->
      exists lo hi, bbox O (obj_coords O w' i) = Some (lo, hi)
        /\ aabb_center O lo hi = vzero O /\ vmax3 O (aabb_span O lo hi) = add O (o1 O) (o1 O))
-  /\ (step O w (ONormalize i false) = Some w' ->
+  /\ (step O w (ONormalize i false) = Some w' \/ step O w (OFit i) = Some w' ->
      exists lo hi, bbox O (obj_coords O w' i) = Some (lo, hi)
        /\ lo = vzero O /\ vmax3 O (aabb_span O lo hi) = o1 O)
   /\ (forall so lo hi c, get_mesh w i = Some so -> bbox O (coords O (mheap (wmem w)) so) = Some (lo, hi) ->
@@ -49,7 +49,7 @@ Lemma normalize_box {T} (O : ops T) : field_laws O -> order_laws O ->
 Proof.
   intros F (L1 & L2 & L3 & L4 & L5) w w' i Hwf. split; [|split].
   - now apply normalize_centres_the_box.
-  - now apply normalize_anchors_the_box.
+  - intros [H|H]; [eapply normalize_anchors_the_box; eauto | eapply fit_anchors_the_box; eauto].
   - intros so lo hi c. now apply normalize_defined.
 Qed.
 
